@@ -338,14 +338,18 @@ PROPS["C19"] = {
 
 PROPS["C20"] = {
     "level": "exploration",
-    "technique": "differential property-based testing (rapid): generated independent conversation pairs are run alone and then all at once on separate goroutines (GOMAXPROCS 16, generated yield points); every pair's complete transcript must be byte-identical; a second binary built with the Go race detector runs the same property and any reported data race is a violation",
+    "technique": "differential property-based testing (rapid): generated independent conversation pairs are run alone and then all at once on separate goroutines (GOMAXPROCS 16, generated yield points); every pair's complete transcript must be byte-identical; a second binary built with the Go race detector runs the same property, and a property over pairs that use the library's default randomness source, and any reported data race is a violation",
     "level_text": "4-16 independent scripted pairs (handshake via whitespace tag or query under different version policies, traffic, fragmentation, error messages, SMP, extra key, key serialisation and fingerprints, teardown) executed solo and concurrently, two concurrent rounds per case; digest over every call's input, plaintext, error, events and output bytes",
     "level_note": "interleavings are the Go scheduler's, not enumerated; the race detector reports conflicting unsynchronised accesses that occur during the run; the race build is ~15x slower and runs fewer, smaller cases",
     "rule": ("each pair is a deterministic lifecycle script with its own seeds and keys; pairs use different version policies (v2, v3, both) and whitespace-tag policies so that shared scratch buffers would produce visibly wrong output; "
-             "oracle: solo run twice gives the same digest (harness self-check), every concurrent digest equals the solo digest, no DATA RACE report in the race build. Non-trivial: at least 4 pairs were running at the same logical moment and the case made >= 4 calls per pair."),
+             "oracle: solo run twice gives the same digest (harness self-check), every concurrent digest equals the solo digest, no DATA RACE report in the race build. "
+             "C20sysrand: 8-32 pairs with Conversation.Rand left unset (the operating system's generator, the default every real application uses) run 1-3 rounds of re-keying, traffic, SMP and teardown at the same time; "
+             "not byte-reproducible, so judged by what holds for any random bytes: no call fails, every text arrives intact, SMP with equal secrets succeeds, no two sessions share a session id, and no DATA RACE report. "
+             " Non-trivial: at least 4 pairs were running at the same logical moment and the case made >= 4 calls per pair."),
     "assumptions": COMMON_ASSUME + ["the harness owns no shared mutable state between pairs (its statistics are mutex-protected and written outside the measured section)"],
     "tests": [
         {"name": "TestProp_C20_Transcripts", "quick": {"shards": 4, "checks": 4, "timeout": 600}, "thorough": {"shards": 8, "checks": 60, "timeout": 3000}},
+        {"name": "TestProp_C20_SysRand", "build": "race", "race_is_violation": True, "quick": {"shards": 2, "checks": 3, "timeout": 900}, "thorough": {"shards": 4, "checks": 40, "timeout": 3000}},
         {"name": "TestProp_C20_Race", "build": "race", "race_is_violation": True, "quick": {"shards": 2, "checks": 3, "timeout": 900}, "thorough": {"shards": 4, "checks": 30, "timeout": 3000}},
     ],
 }
